@@ -76,6 +76,9 @@ class Gates:
             B = cfg.Body(b)
             d = self._ret_compare(B)
             if d is None:
+                mo = self._match_gate(B)
+                if mo is not None and b["key"] not in self.gates:
+                    self.gates[b["key"]] = (mo, None)
                 continue
             op, src_origin, k = d
             inline = isinstance(src_origin, tuple)
@@ -87,6 +90,47 @@ class Gates:
                 self.gates[b["key"]] = (src_origin[1], None)  # `count.load(ord) == 1` written out in the gate itself
             elif src_origin in self.loaders:
                 self.gates[b["key"]] = (self.loaders[src_origin], None)
+
+    def _match_gate(self, B):
+        """`fn is_unique(&self) -> bool { matches!(self.count(), 1) }`: the result is assigned `true` exactly behind the arm for the
+        value 1 of a switch on the loaded count, `false` elsewhere. Returns the ordering of the load or None."""
+        F = self.F
+        b = B.b
+        if "output" not in b or F.ts(b["output"]) != "bool":
+            return None
+        ds = B.defs().get(0, [])
+        if len(ds) < 2 or not all(d[0] == "assign" and d[3]["k"] == "use" and operand_const(d[3]["op"]) is not None for d in ds):
+            return None
+        for bi, bl in enumerate(B.blocks):
+            tt = bl["term"]
+            if tt["k"] != "switch":
+                continue
+            o = B.origin(tt["discr"])
+            if o.get("kind") != "call":
+                continue
+            t = o["term"]
+            callee = atomics.callee_of(t)
+            if callee in self.loaders:
+                ordr = self.loaders[callee]
+            elif atomics.atomic_class(t) == model.ATOMIC_LOAD and atomics.receiver_is_count(F, B, t):
+                ordr = atomics.ordering_of(B, t["args"][1]) if len(t["args"]) > 1 else None
+            else:
+                continue
+            ones = [tg for v, tg in tt["arms"] if v == 1]
+            if len(ones) != 1 or ones[0] == tt["otherwise"]:
+                continue
+            edge = (bi, ones[0])
+            after = B.reach(ones[0], normal_only=True)
+            ok = True
+            for d in ds:
+                val = operand_const(d[3]["op"]).get("int")
+                if val == 1 and reachable_without(B, {edge}, set(), d[1]):
+                    ok = False
+                if val == 0 and d[1] in after:
+                    ok = False
+            if ok:
+                return ordr
+        return None
 
     def _ret_origin(self, B):
         ds = B.defs().get(0, [])
@@ -255,6 +299,63 @@ def gate_edges_with_order(F, G, B, E=None):
     return out
 
 
+def _forwarding_bodies(F):
+    """Local functions that return what a callable parameter returns when applied to a transient Arc of their first argument
+    (`with_arc(&self, f) -> U { f(&transient) }`), possibly through another such function."""
+    c = F.__dict__.get("_fwd_bodies")
+    if c is not None:
+        return c
+    FN = ("core::ops::function::FnOnce", "core::ops::function::FnMut", "core::ops::function::Fn")
+    out = set()
+    for b in F.body_list:
+        if b["kind"] not in ("Fn", "AssocFn"):
+            continue
+        ds = cfg.Body(b).defs().get(0, [])
+        if ds and all(d[0] == "call" and d[2].get("callee_trait") in FN for d in ds):
+            out.add(b["key"])
+    grew = True
+    while grew:
+        grew = False
+        for b in F.body_list:
+            if b["key"] in out or b["kind"] not in ("Fn", "AssocFn"):
+                continue
+            ds = cfg.Body(b).defs().get(0, [])
+            if ds and all(d[0] == "call" and atomics.callee_of(d[2]) in out for d in ds):
+                out.add(b["key"])
+                grew = True
+    F.__dict__["_fwd_bodies"] = out
+    return out
+
+
+def _forwarded_gate(F, G, t):
+    """If call t applies a forwarding function (`with_arc`) to a callable that is the uniqueness gate (fn item `Arc::is_unique`, or a
+    closure whose result is a gate call on its argument), the ordering of the gate's load; None otherwise."""
+    from .. import implsel
+
+    callee = atomics.callee_of(t)
+    if callee not in _forwarding_bodies(F):
+        return None
+    r = t.get("resolved")
+    args = r["args"] if isinstance(r, dict) else (t.get("callee_args") or [])
+    for a in args:
+        if "t" not in a:
+            continue
+        ti = F.strip_refs(a["t"])
+        tt = F.ty(ti)
+        if tt["k"] == "fndef":
+            k = tt["def"] if tt["def"] in F.bodies else implsel.fn_item(F, ti)[0]
+            if k in G.gates and G.gates[k][0] != "BAD":
+                return G.gates[k][0]
+        elif tt["k"] == "closure" and tt["def"] in F.bodies:
+            CB = cfg.Body(F.body(tt["def"]))
+            o = CB.origin_local(0)
+            if o.get("kind") == "call":
+                k = atomics.callee_of(o["term"])
+                if k in G.gates and G.gates[k][0] != "BAD":
+                    return G.gates[k][0]
+    return None
+
+
 def _direct_gate_edges(F, G, B):
     """All edges on which `count == 1` is known for a handle derived from some argument, with the ordering of the load:
     [(bb, target, roots, ordering)] - covers `if h.is_unique()` and the inlined `if load(h) == 1`."""
@@ -268,6 +369,18 @@ def _direct_gate_edges(F, G, B):
             continue
         if "call" in c:
             callee = atomics.callee_of(c["call"])
+            fg = _forwarded_gate(F, G, c["call"])
+            if fg is not None:
+                # `OffsetArc::with_arc(self, Arc::is_unique)`: the test applied to the transient Arc of the very handle passed first
+                roots = set()
+                for a in c["call"]["args"][:1]:
+                    pl = operand_place(a)
+                    if pl is not None:
+                        roots |= root_args(B, pl["l"])
+                for tgt, tv in B.switch_truth(tt).items():
+                    if tv != c["neg"]:
+                        out.append((bi, tgt, roots, fg))
+                continue
             if callee in G.gates and G.gates[callee][0] != "BAD":
                 roots = set()
                 for a in c["call"]["args"]:
@@ -277,6 +390,17 @@ def _direct_gate_edges(F, G, B):
                 for tgt, tv in B.switch_truth(tt).items():
                     if tv != c["neg"]:
                         out.append((bi, tgt, roots, G.gates[callee][0]))
+            elif not c["neg"] and (callee in G.loaders or (atomics.atomic_class(c["call"]) == model.ATOMIC_LOAD and atomics.receiver_is_count(F, B, c["call"]))):
+                # `match Arc::count(&this) { 1 => .., _ => .. }`: a switch on the loaded count itself, the arm for the value 1
+                ordr = G.loaders[callee] if callee in G.loaders else atomics.ordering_of(B, c["call"]["args"][1])
+                roots = set()
+                for a in c["call"]["args"][:1]:
+                    pl = operand_place(a)
+                    if pl is not None:
+                        roots |= root_args(B, pl["l"])
+                ones = [tg for v, tg in tt["arms"] if v == 1]
+                if len(ones) == 1 and ones[0] != tt["otherwise"] and sum(1 for _v, tg in tt["arms"] if tg == ones[0]) == 1:
+                    out.append((bi, ones[0], roots, ordr))
             continue
         if c.get("op") in ("Eq", "Ne"):
             va, vb = B.const_value(c["a"]), B.const_value(c["b"])
@@ -687,7 +811,7 @@ def run(ctx, rep):
     balance.rule_use_after_release(ctx, rep)  # the gate is only meaningful if nobody keeps using a block after giving its count back
     rep.floor("R-USE-AFTER-RELEASE", 1, "the one decrementing body")
     rep.floor("R-GATE-DEF", 1, "one gate definition")
-    rep.floor("R-GATE", 12, "payload &mut producers, UniqueArc constructions, unsafe-constructor call sites")
+    rep.floor("R-GATE", 6, "payload &mut producers, UniqueArc constructions, unsafe-constructor call sites")
 
 
 def rule_panic_decline(ctx, rep):
